@@ -149,6 +149,28 @@ Theorem C13_open2n2_remove_short_hash_multiset :
     BucketFrame.O2F.wsum w (BucketOps.O2.sh b') = BucketFrame.O2F.wsum w (BucketOps.O2.sh b) - w (BucketOps.O2.sh b idx).
 Proof. exact BucketFrame.O2F.rem_wsum. Qed.
 Print Assumptions C13_open2n2_remove_short_hash_multiset.
+(* OpenN1<maxCount, reverse> / Open8: the state byte shares the slot of the LAST item, so the frame is stated over item
+   numbers (item i lives at pos i): AddCrt writes the new short hash at pos count and keeps items 0..count-1; Remove moves
+   the short hash of the last item into the vacated position and keeps every other surviving item; bytes outside
+   0..maxCount-1 (the bound byte mData[maxCount] among them) are untouched. *)
+Theorem C13_openn1_addcrt_frame :
+  forall rv mc, 1 <= mc <= 7 -> forall hc x1 x2 ni d, BucketOps.N1.good rv mc d -> 0 <= BucketOps.N1.cnt rv mc d < mc ->
+    let d' := BucketOps.N1.addP rv mc (hc, x1, x2, ni) d in
+    d' (BucketOps.N1.pos rv mc (BucketOps.N1.cnt rv mc d)) = Gen_OpenN1_ops.ptCalcShortHash (wrapU 64 hc) /\
+    (forall i, 0 <= i < BucketOps.N1.cnt rv mc d -> d' (BucketOps.N1.pos rv mc i) = d (BucketOps.N1.pos rv mc i)) /\
+    (forall j, j < 0 \/ mc <= j -> d' j = d j).
+Proof. exact BucketFrame.N1F.add_frame. Qed.
+Print Assumptions C13_openn1_addcrt_frame.
+Theorem C13_openn1_remove_frame :
+  forall rv mc, 1 <= mc <= 7 -> forall idx0 x1 x2 x3 d d', BucketOps.N1.good rv mc d -> 0 < BucketOps.N1.cnt rv mc d <= mc ->
+    BucketOps.N1.remP rv mc (idx0, x1, x2, x3) d = Some d' ->
+    let idx := wrapU 64 idx0 in
+    0 <= idx < BucketOps.N1.cnt rv mc d /\
+    (idx < BucketOps.N1.cnt rv mc d - 1 -> d' (BucketOps.N1.pos rv mc idx) = d (BucketOps.N1.pos rv mc (BucketOps.N1.cnt rv mc d - 1))) /\
+    (forall i, 0 <= i < BucketOps.N1.cnt rv mc d - 1 -> i <> idx -> d' (BucketOps.N1.pos rv mc i) = d (BucketOps.N1.pos rv mc i)) /\
+    (forall j, j < 0 \/ mc <= j -> d' j = d j).
+Proof. exact BucketFrame.N1F.rem_frame. Qed.
+Print Assumptions C13_openn1_remove_frame.
 
 (* Table level ("Hence ..." of the property).  OpenTable.v models HashSet::pvAddNogrow / pvFind / Remove for an
    open-addressing table with 2^n buckets, ANY hash function h, the generated probe step, the generated bound
